@@ -107,6 +107,17 @@ Proof.
 Qed.
 Print Assumptions C20_two_ranges_other_unchanged.
 
+(* an owning adaptor is a value: a copied / moved adaptor shows its OWN elements whatever the source owns afterwards,
+   and the source shows what it owns then *)
+Theorem C20_owning_adaptor_is_a_value : forall (A : Type) (owned src_after : list A),
+  iterate_copy_and_source_enumerate A owned src_after = (Done (combine (seq 0 (length owned)) owned), Done (combine (seq 0 (length src_after)) src_after)) /\
+  iterate_copy_and_source_reverse A owned src_after = (Done (rev owned), Done (rev src_after)).
+Proof.
+  intros A owned src_after. unfold iterate_copy_and_source_enumerate, iterate_copy_and_source_reverse, relocate.
+  rewrite !enumerate_rvalue_spec, !reverse_rvalue_spec. split; reflexivity.
+Qed.
+Print Assumptions C20_owning_adaptor_is_a_value.
+
 (* non-vacuity *)
 Module Examples.
 Example C20_ex_enumerate : enumerate_for nat (fun i v => 3 * v + i + 1) [5; 6; 7] = Done ([(0, 5); (1, 6); (2, 7)], [16; 20; 24]).
